@@ -162,9 +162,9 @@ func p2pLiveness(c *Ctx, netId uint64) {
 		}
 		// (b) an honest peer's valid block reaches the pool. A delivered momentum is imported on the fetcher's own goroutine and may
 		//     move the honest account's frontier between the moment the block is built and the moment it arrives, so the honest
-		//     peer (like any wallet) rebuilds its block on the new frontier and tries again: three attempts.
+		//     peer (like any wallet) rebuilds its block on the new frontier and tries again: five attempts.
 		pooled, lastTok, lastObs := false, "", ""
-		for attempt := 0; attempt < 3 && !pooled; attempt++ {
+		for attempt := 0; attempt < 5 && !pooled; attempt++ {
 			if attempt > 0 {
 				time.Sleep(300 * time.Millisecond)
 				c.Hit("live-honest-retry")
@@ -192,7 +192,7 @@ func p2pLiveness(c *Ctx, netId uint64) {
 			pooled = r.inPool(hb.Hash)
 		}
 		if !pooled {
-			fail("honest-tx-not-pooled", "after %s the valid block delivered by an honest peer is not in the node's pool (3 attempts, each block built on "+
+			fail("honest-tx-not-pooled", "after %s the valid block delivered by an honest peer is not in the node's pool (5 attempts, each block built on "+
 				"the account's frontier of that moment; last: %s, %s)", after, lastTok, lastObs)
 			return
 		}
